@@ -306,7 +306,18 @@ func Cases(r *hx.Rand, tier string) []Case {
 	if len(pool) < n {
 		n = len(pool)
 	}
-	return append(must, pool[:n]...)
+	out := append(must, pool[:n]...)
+	// defined types at every constituent position of every call shape (nconst.go): those of the
+	// documented shapes always, a sample of those of the extra and of the channel-direction shapes
+	// (drawn after the pool above so that its sample is what it was)
+	ncMust, ncPool := NamedConstituents()
+	out = append(out, ncMust...)
+	hx.Shuffle(r.Fork(7), ncPool)
+	m := 40
+	if tier == "thorough" || len(ncPool) < m {
+		m = len(ncPool)
+	}
+	return append(out, ncPool[:m]...)
 }
 
 // Directions: every direction of every channel the combinators receive from (dup, fmap, join in its
